@@ -42,6 +42,25 @@ func c01Direct(rc *RunCtx, configs int, logCalls bool) {
 			attesters = append(attesters, ct.Attester{Attester: []string{"", "0x"}[r.Intn(2)] + hex.EncodeToString(neg)})
 			pubs = append(pubs, neg)
 		}
+		// entries that carry the outsider's key material in an encoding that is not a 65-byte uncompressed key
+		// (compressed, x-only, prefix-less, hybrid): they enable nobody, so the outsider's signature still does not count
+		if ci%3 == 2 {
+			x, y := outsider.Pub[1:33], outsider.Pub[33:65]
+			alts := [][]byte{
+				append([]byte{2 + y[31]&1}, x...),                       // compressed
+				append([]byte{3 - y[31]&1}, x...),                       // compressed, other parity (the negated key)
+				append([]byte(nil), x...),                               // x only
+				append(append([]byte(nil), x...), y...),                 // no prefix byte
+				append(append([]byte{6 + y[31]&1}, x...), y...),         // hybrid
+				append(append([]byte{4}, x...), y[:31]...),              // one byte short
+				append(append(append([]byte{4}, x...), y...), 0),        // one byte long
+			}
+			for _, a := range alts {
+				if r.Intn(2) == 0 {
+					attesters = append(attesters, ct.Attester{Attester: []string{"", "0x"}[r.Intn(2)] + hex.EncodeToString(a)})
+				}
+			}
+		}
 		// the same key enabled under further accepted spellings (the store keys entries by spelling)
 		dupSpell := 0
 		if ci%2 == 0 {
